@@ -48,6 +48,12 @@ pub fn run(spec: &ScenarioSpec, ctx: &mut Ctx) -> Result<(), Violation> {
         return s2::run(spec, &m, ctx, P, s2::Flags { model_rows: false, row_view: true, protocol: false, final_equiv: false });
     }
     let Some(game) = s1_read(P, spec, &m, ctx, false)? else { return Ok(()) };
+    // the record view is reached through the Game trait: its row count is the number of rows
+    let tlen = guarded(|| GameTrait::len(&game)).map_err(|c| caught_violation(P, "Game::len", &c))?;
+    if tlen != game.frames.len() {
+        return Err(Violation::new(P, "row-count", "Game::len", format!("Game::len() says {} but the id column has {} rows (ids {:?}..)", tlen, game.frames.len(), game.frames.id.values().iter().take(6).collect::<Vec<_>>())));
+    }
+    ctx.check();
     let walk = spec.knob("walk");
     let mut wr = Rng::new(spec.knob("walk_seed") as u64);
     let n_rows = game.frames.len();
